@@ -162,7 +162,8 @@ C18_UnitsExact == IsDist => UnitsExact(c)
 C18_DemandWithinStatement == IsDist => DemandWithinStatement(c)
 C18_ExpZero == IsDist => (exp.zero => exp.d = EZ)
 (* integer forms: offered exactly when every coordinate is a whole number the type holds; the integer grid admits them *)
-C18_IntForms == IsDist => /\ (c.fam = "intgrid" => {"int64", "int32", "int16", "pyint"} \subseteq exp.forms)
+C18_IntForms == IsDist => /\ ((exp.forms = {}) = (exp.mixes = {}))
+                          /\ (c.fam = "intgrid" => {"int64", "int32", "int16", "pyint"} \subseteq exp.forms)
                           /\ \A f \in exp.forms : \A x \in {c.p.ra, c.p.dec, c.q.ra, c.q.dec} :
                                 EAIntegral(x) /\ FormLo(f) <= x.b \div 8 /\ x.b \div 8 <= FormHi(f)
                           /\ ((\E x \in {c.p.ra, c.p.dec, c.q.ra, c.q.dec} : x.b < 0) => exp.forms \cap {"uint8", "uint16", "uint32", "uint64"} = {})
